@@ -15,9 +15,14 @@ inductive Cred where
   deriving DecidableEq, Repr
 
 structure SeenReq where
+  /-- the method; for a SETUP also the track whose control URL (resolved against the route URL) and
+      interleaved channel pair the request names -/
   method : Method
   auth : Auth
   cred : Cred
+  /-- the request line names something else than the route URL (OPTIONS, DESCRIBE, PLAY, keep-alive) /
+      a track's control URL with that track's TCP interleaved transport (SETUP) -/
+  misaddressed : Bool := false
   deriving DecidableEq, Repr
 
 structure Obs where
@@ -33,6 +38,9 @@ structure Obs where
   regAfter : Bool
   cseqOk : Bool
   leak : Bool              -- connection counter or goroutine count did not come back
+  /-- after everything had ended, a later request for the path dialled the camera again and got the same
+      kind of result (a new stream, registered / not-found) -/
+  afresh : Bool := true
   deriving Repr
 
 def isSuccess : Resp → Bool
@@ -51,9 +59,14 @@ def tracksOf : Sdp → Nat
   | .tracks v a _ => (if v then 1 else 0) + (if a then 1 else 0)
   | _ => 0
 
-/-- the methods a complete handshake consists of -/
+/-- one SETUP per section of the SDP that carries a control attribute, each addressed to its own track -/
+def setupsOf : Sdp → List Method
+  | .tracks v a _ => (if v then [.setup false] else []) ++ (if a then [.setup true] else [])
+  | _ => []
+
+/-- the requests a complete handshake consists of -/
 def needed (cfg : Cfg) : List Method :=
-  [.options, .describe] ++ List.replicate (tracksOf cfg.sdp) .setup ++ [.play]
+  [.options, .describe] ++ setupsOf cfg.sdp ++ [.play]
 
 /-- the methods of the observed requests that the camera answered with success -/
 def succeeded (script : List Resp) (reqs : List SeenReq) : List Method :=
@@ -105,6 +118,7 @@ def verdict (cfg : Cfg) (script : List Resp) (o : Obs) : String :=
   else if o.out = .panic then "panic-reaches-requester"
   else if o.leak then "connection-or-goroutine-leak"
   else if !o.cseqOk then "cseq-not-increasing"
+  else if o.reqs.any (·.misaddressed) then "request-addressed-wrongly"
   else if !credsOk script o.reqs then "credentials-wrong-or-unprompted"
   else if !challengeAnswered cfg script o.reqs then "challenge-not-answered"
   else if o.out = .stream then
@@ -114,12 +128,14 @@ def verdict (cfg : Cfg) (script : List Resp) (o : Obs) : String :=
     else if !o.closed then "connection-left-open-after-play"
     else if !o.cclosed then "consumer-not-closed"
     else if o.regAfter || !o.clean then "stream-left-registered"
+    else if !o.afresh then "later-request-does-not-pull-afresh"
     else "ok"
   else -- notFound
     if !isPrefix (succeeded script o.reqs) (needed cfg) then "handshake-out-of-order"
     else if o.dialled && !o.closed then "failed-open-leaves-connection"
     else if o.regAfter || o.reg then "failed-open-leaves-registration"
     else if !hasReason cfg script o then "gave-up-without-reason"
+    else if !o.afresh then "later-request-does-not-pull-afresh"
     else "ok"
 
 end IpcHub.PullSpec
